@@ -699,6 +699,67 @@ pub fn uniq<F: Family>(cx: &mut Cx<'_, F>, op: &Op) -> Outcome {
             }
             Done(exp)
         }
+        OpCode::DeInPlace => {
+            // serde's deserialize_in_place on an Arc<P>: either a fresh sole-owner allocation
+            // replaces the handle (the old one loses an owner), or -- if an implementation reuses a
+            // uniquely owned allocation -- the value is rebuilt in place, which is a write that
+            // must be ordered after every former sharer's access.
+            if k != Kind::ArcP || !F::P::can_make(1) {
+                return Skipped;
+            }
+            let (old_ptr, old_val) = cx.env.m(|m| (m.allocs[ai].ptr, m.allocs[ai].val.unwrap_or(0)));
+            cx.pre_release(ai);
+            let slot = cx.slot(g);
+            let Handle::ArcP(x) = &mut slot.h else { unreachable!() };
+            let r = guarded(|| F::de_in_place(x, op.c));
+            let now_ptr = {
+                let s = cx.slots[g as usize - cx.base].as_ref().unwrap();
+                match &s.h {
+                    Handle::ArcP(x) => x.heap_ptr() as usize,
+                    _ => unreachable!(),
+                }
+            };
+            let mut exp = Exp::default();
+            match r {
+                Ok(None) => {
+                    cx.undo_pre_release(ai);
+                    Skipped
+                }
+                Ok(Some(Ok(()))) => {
+                    let new_id = {
+                        let s = cx.slots[g as usize - cx.base].as_ref().unwrap();
+                        match &s.h {
+                            Handle::ArcP(x) => x.raw(),
+                            _ => unreachable!(),
+                        }
+                    };
+                    if now_ptr == old_ptr {
+                        // rebuilt in place: only legal for a sole owner; the old value was destroyed
+                        cx.undo_pre_release(ai);
+                        cx.verdict(&what, ai, true);
+                        if old_val != 0 {
+                            exp.drops.push(old_val);
+                        } else if F::P::ZST {
+                            exp.zst_drops += 1;
+                        }
+                        cx.set_val(ai, new_id);
+                        exp.no_rmw = true;
+                    } else {
+                        cx.confirm_release(ai, &mut exp);
+                        exp.new_live = 1;
+                        let mut a = cx.new_alloc(Class::P, 0, &what);
+                        a.val = if new_id == 0 { None } else { Some(new_id) };
+                        a.zst_body = if F::P::ZST { 1 } else { 0 };
+                        let nai = cx.push_alloc(a);
+                        cx.slot(g).ai = nai;
+                    }
+                    Done(exp)
+                }
+                Ok(Some(Err(()))) | Err(_) => {
+                    violation("unexpected-panic", format!("`{}` failed although the input is well-formed", what));
+                }
+            }
+        }
         OpCode::UniWrite => {
             let sel = op.c;
             let slot = cx.slot(g);
